@@ -76,8 +76,13 @@ def wrapped_conversion(path_in, array_reduction, path_out, frame_slice, channels
         _delay(path_in, 'after')
 
 
+def _rel(path):
+    base = CONFIG.get('dir_in')
+    return os.path.relpath(path, base) if base else os.path.basename(path)
+
+
 def _strip_result(r):
-    return {'path_input': os.path.basename(r.path_input), 'binary_file_type': r.binary_file_type, 'size_input': r.size_input,
+    return {'path_input': _rel(r.path_input), 'binary_file_type': r.binary_file_type, 'size_input': r.size_input,
             'size_output': r.size_output, 'las_count': r.las_count, 'exception': bool(r.exception), 'ignored': bool(r.ignored)}
 
 
@@ -94,27 +99,34 @@ def main(argv):
         native.preseed('plain')
     from TotalDepth.LAS.core import WriteLAS
     from TotalDepth.common import Slice
-    CONFIG.update(converter=spec['converter'], log=spec['log'], delay_seed=spec['delay_seed'], max_delay_ms=spec.get('max_delay_ms', 30))
+    CONFIG.update(converter=spec['converter'], log=spec['log'], delay_seed=spec['delay_seed'], max_delay_ms=spec.get('max_delay_ms', 30), dir_in=spec['dir_in'])
+    recurse = bool(spec.get('recurse', False))
     fs = spec['frame_slice']
     frame_slice = Slice.Sample(fs['sample']) if 'sample' in fs else Slice.Slice(fs.get('start'), fs.get('stop'), fs.get('step'))
     args = (spec['array_reduction'], frame_slice, set(spec['channels']), spec['field_width'], spec['float_format'])
     out = {'mode': spec['mode'], 'raised': None, 'results': None}
     try:
         if spec['mode'] == 'seq':
-            res = WriteLAS.convert_dir_or_file_to_las(spec['dir_in'], spec['dir_out'], False, args[0], args[1], args[2], args[3], args[4], wrapped_conversion)
+            res = WriteLAS.convert_dir_or_file_to_las(spec['dir_in'], spec['dir_out'], recurse, args[0], args[1], args[2], args[3], args[4], wrapped_conversion)
         elif spec['mode'] == 'mp':
-            res = WriteLAS.convert_dir_or_file_to_las_multiprocessing(spec['dir_in'], spec['dir_out'], False, args[0], args[1], args[2], args[3], args[4], spec['jobs'], wrapped_conversion)
+            res = WriteLAS.convert_dir_or_file_to_las_multiprocessing(spec['dir_in'], spec['dir_out'], recurse, args[0], args[1], args[2], args[3], args[4], spec['jobs'], wrapped_conversion)
         elif spec['mode'] == 'alone':
             res = {}
-            for name in sorted(os.listdir(spec['dir_in'])):
+            names = []
+            for dp, dn, fn in os.walk(spec['dir_in']):
+                dn.sort()
+                if not recurse:
+                    del dn[:]
+                names += [os.path.relpath(os.path.join(dp, f), spec['dir_in']) for f in sorted(fn)]
+            for name in sorted(names):
                 p = os.path.join(spec['dir_in'], name)
                 # a fresh channel set per file: this run is the per-file ground truth
                 single = WriteLAS.convert_dir_or_file_to_las(p, os.path.join(spec['dir_out'], name), False, args[0], args[1], set(spec['channels']), args[3], args[4], wrapped_conversion)
                 res.update(single)
         else:
             raise ValueError(spec['mode'])
-        out['results'] = {os.path.basename(k): _strip_result(v) for k, v in res.items()}
-        out['keys_match_path_input'] = all(os.path.basename(k) == os.path.basename(v.path_input) for k, v in res.items())
+        out['results'] = {_rel(k): _strip_result(v) for k, v in res.items()}
+        out['keys_match_path_input'] = all(os.path.abspath(k) == os.path.abspath(v.path_input) for k, v in res.items())
     except BaseException as e:  # the batch call raised: that is itself an observation
         import traceback
         out['raised'] = '%s: %s' % (type(e).__name__, str(e)[:300])
